@@ -165,8 +165,10 @@ func (t *tcpTransport) Receive(ctx context.Context) (envelope, error) {
 }
 
 func (t *tcpTransport) Close() error {
-	if err := t.ensureOpen(); err != nil {
-		return err
+	// After the end of the stream was seen the transport reports itself as not connected, but the
+	// socket is still held and has to be released.
+	if t.conn == nil {
+		return errors.New("transport is not open")
 	}
 
 	err := t.ctxConn.Close()
